@@ -28,7 +28,8 @@ def handlers : List (String × (Json → R Json)) := [
   ("optimise", Plot.hOptimise),
   ("seed_order", Plot.hSeedOrder),
   ("style", Plot.hStyle),
-  ("floor", Dispatch.hFloor)
+  ("floor", Dispatch.hFloor),
+  ("kde", Kde.hKde)
 ]
 
 def handle (j : Json) : Json :=
